@@ -13,3 +13,5 @@ import Signac.Properties.C20
 import Signac.Workspace
 import Signac.Properties.C03
 import Signac.Properties.C04
+import Signac.Properties.C11
+import Signac.Properties.C17
